@@ -84,8 +84,22 @@ fn asm_table(_req: &json::JsonValue) -> json::JsonValue {
 #[cfg(not(rbpf_verif))]
 fn asm_table(_req: &json::JsonValue) -> json::JsonValue { json::object! { "status": "no_hooks" } }
 
+// call one of rbpf::helpers::* natively
+fn call_helper(req: &json::JsonValue) -> json::JsonValue {
+    let a: Vec<u64> = req["args"].members().map(|x| x.as_str().map(|s| s.parse::<u64>().unwrap()).unwrap_or_else(|| x.as_u64().unwrap_or(0))).collect();
+    let name = req["name"].as_str().unwrap_or("").to_string();
+    let r = panic::catch_unwind(|| match name.as_str() {
+        "rand" => rbpf::helpers::rand(a[0], a[1], a[2], a[3], a[4]),
+        "sqrti" => rbpf::helpers::sqrti(a[0], a[1], a[2], a[3], a[4]),
+        "gather_bytes" => rbpf::helpers::gather_bytes(a[0], a[1], a[2], a[3], a[4]),
+        _ => 0,
+    });
+    match r { Err(p) => json::object! { "status": "panic", "msg": pmsg(p) }, Ok(v) => json::object! { "status": "ok", "value": format!("{}", v) } }
+}
+
 pub fn dispatch(op: &str, req: &json::JsonValue) -> json::JsonValue {
     match op {
+        "call_helper" => call_helper(req),
         "load" => load(req),
         "compile" => compile(req),
         "asm_table" => asm_table(req),
